@@ -235,6 +235,21 @@ chk("C09",
     "TLA+ spec + TLC (design-level include discipline); impl->spec trace validation of build events from real compilers",
     "DESIGN.md §5 C09")
 
+chk("C08",
+    "spec/abi/WasmAbi.tla (on top of Abi.tla's C layout at 32-bit pointers) defines the scalar leaves of a struct with their "
+    "offsets, and the flattened argument list under the legacy wasm ABI (direct for <=2 scalars, otherwise padded direct with "
+    "typed padding = alignment of the preceding field, unions as size/align chunks + flag + padding) and under the spec ABI (single "
+    "scalar direct, else one pointer); TLC checks PaddedCoversStruct, ordering and SmallIsDirect for every struct of <=3 fields over "
+    "17 field types (5.2k structs) and emits layout, leaves and slot lists. The real JS backend's output is executed in node against "
+    "a stub wasm module (real WebAssembly.Memory, bump diplomat_alloc, recording proxy): bytes written by _writeToArrayBuffer, "
+    "values read back by _fromFFI from the spec's byte image, DiplomatReceiveBuf size/alignment, and the arguments recorded when the "
+    "struct is passed to an export are compared with the spec for js.abi = legacy and spec. The layout half of the oracle is "
+    "cross-checked against host rustc (same structs with pointer-sized fields replaced by u32).",
+    "No wasm32 target here: the flattening oracle is docs/wasm_abi_quirks.md as transcribed; two divergences from the documented ABI "
+    "are recorded as known findings. Padding bytes and absent option payloads are unspecified.",
+    "TLA+ spec + TLC; spec->impl replay by executing generated JS in node; layout oracle cross-checked with rustc",
+    "DESIGN.md §5 C08")
+
 NOT_YET = {}
 
 
